@@ -298,7 +298,9 @@ func (l *List) Accept(sta funcGen.Stack[Value]) (*List, error) {
 		return nil, err
 	}
 	return NewListFromIterable(func(st funcGen.Stack[Value]) iterator.Producer[Value] {
-		return iterator.FilterAuto[Value](l.iterable(st), func() func(v Value) (bool, error) {
+		// The producer gets its own stack: as soon as the filter is executed in parallel, the
+		// consumer is called from another goroutine while the producer is still running.
+		return iterator.FilterAuto[Value](l.iterable(funcGen.NewEmptyStack[Value]()), func() func(v Value) (bool, error) {
 			s := funcGen.NewEmptyStack[Value]()
 			return func(v Value) (bool, error) {
 				eval, err := f.Eval(s, v)
@@ -320,7 +322,9 @@ func (l *List) Map(sta funcGen.Stack[Value]) (*List, error) {
 		return nil, err
 	}
 	return NewListFromSizedIterable(func(st funcGen.Stack[Value]) iterator.Producer[Value] {
-		return iterator.MapAuto[Value, Value](l.iterable(st), func() func(i int, v Value) (Value, error) {
+		// The producer gets its own stack: as soon as the map is executed in parallel, the
+		// consumer is called from another goroutine while the producer is still running.
+		return iterator.MapAuto[Value, Value](l.iterable(funcGen.NewEmptyStack[Value]()), func() func(i int, v Value) (Value, error) {
 			s := funcGen.NewEmptyStack[Value]()
 			return func(i int, v Value) (Value, error) {
 				return f.Eval(s, v)
@@ -400,7 +404,8 @@ func (l *List) Merge(sta funcGen.Stack[Value]) (*List, error) {
 	}
 	if otherList, ok := other.ToList(); ok {
 		return NewListFromIterable(func(st funcGen.Stack[Value]) iterator.Producer[Value] {
-			return iterator.Merge(l.iterable(st), otherList.iterable(st),
+			// Both producers are executed in their own goroutine, so each one needs its own stack.
+			return iterator.Merge(l.iterable(funcGen.NewEmptyStack[Value]()), otherList.iterable(funcGen.NewEmptyStack[Value]()),
 				func(a, b Value) (bool, error) {
 					st.Push(a)
 					st.Push(b)
